@@ -50,6 +50,11 @@ fn c01(l: &PriceLevel, rep: &mut Report, step: usize, what: &str, legs: bool) {
             rep.violation("C10", "roundtrip.json_form_same_content", format!("step={step} after {what}: JSON form deserializes to different content")); } }
         Err(e) => rep.violation("C10", "roundtrip.json_form_same_content", format!("step={step} after {what}: JSON round trip failed: {e}")),
     }
+    match PriceLevel::try_from(pricelevel::PriceLevelData::from(l)) {
+        Ok(t) => { if listing(&t) != want || t.price() != l.price() || t.visible_quantity() != l.visible_quantity() || t.hidden_quantity() != l.hidden_quantity() || t.order_count() != l.order_count() {
+            rep.violation("C10", "roundtrip.level_data_same_content", format!("step={step} after {what}: the level rebuilt from its own level data holds {} orders / aggregates ({}, {}, {}), the original {} / ({}, {}, {})", listing(&t).len(), t.visible_quantity(), t.hidden_quantity(), t.order_count(), want.len(), l.visible_quantity(), l.hidden_quantity(), l.order_count())); } }
+        Err(e) => rep.violation("C10", "roundtrip.level_data_same_content", format!("step={step} after {what}: level data round trip failed: {e}")),
+    }
     match l.snapshot_package().and_then(PriceLevel::from_snapshot_package) {
         Ok(t) => { if listing(&t) != want || t.price() != l.price() || t.visible_quantity() != l.visible_quantity() || t.hidden_quantity() != l.hidden_quantity() || t.order_count() != l.order_count() {
             rep.violation("C10", "roundtrip.package_same_content", format!("step={step} after {what}: package round trip yields different content")); } }
@@ -246,6 +251,11 @@ pub fn run(v: &serde_json::Value, rep: &mut Report) -> Result<(), String> {
                             rep.violation("C10", "restore.input_aggregates_never_believed", format!("step={step}: from_snapshot of a snapshot with falsified aggregates yields aggregates ({}, {}, {}) for orders summing to ({sv}, {sh}, {n})", t.visible_quantity(), t.hidden_quantity(), t.order_count())); } }
                         Err(_) => {} // rejecting the input is not believing it
                     }
+                    // an order-less snapshot whose recorded aggregates say otherwise rebuilds an EMPTY level
+                    let mut hollow = level.snapshot(); hollow.orders.clear();
+                    if let Ok(t) = PriceLevel::from_snapshot(hollow) { if t.visible_quantity() != 0 || t.hidden_quantity() != 0 || t.order_count() != 0 || !t.iter_orders().is_empty() {
+                        rep.violation("C10", "restore.input_aggregates_never_believed", format!("step={step}: from_snapshot of an order-less snapshot with recorded aggregates yields aggregates ({}, {}, {}) with no resting order", t.visible_quantity(), t.hidden_quantity(), t.order_count()));
+                        rep.violation("C01", "wf.visible_equals_sum", format!("step={step}: a level rebuilt from an order-less snapshot reports visible={} hidden={} count={} and lists no order", t.visible_quantity(), t.hidden_quantity(), t.order_count())); } }
                     let mut data = pricelevel::PriceLevelData::from(&level);
                     data.visible_quantity = data.visible_quantity.wrapping_add(5); data.hidden_quantity = data.hidden_quantity.wrapping_add(9); data.order_count = data.order_count.wrapping_add(2);
                     match PriceLevel::try_from(data) {
